@@ -8,8 +8,9 @@ Which version a mutable read goes for, and which shares a Retrieve uses (C10, li
       best = the largest recoverable verinfo in tuple order (seqnum first, offsets last).
   Retrieve._activate_enough_servers / _process_segment / _mark_bad_share          (mutable/retrieve.py)
       keep k readers active, always adding the lowest unused share numbers of `remaining_sharemap`;
-      a share that fails validation is dropped -- and with it (code as it is, `dropSrv = true`) every
-      other entry of the same server in `remaining_sharemap`; readers that are already active stay.
+      a share that fails validation is dropped (`dropSrv = false`, the code since /repo 280b4a6; before
+      that, `dropSrv = true`: every other entry of the same server in `remaining_sharemap` went with
+      it); readers that are already active stay.
   MutableFileNode._download_best_version                                           (mutable/filenode.py)
       one retry with a fresh, complete servermap after NotEnoughSharesError.
 
@@ -94,5 +95,22 @@ def read (dropSrv : Bool) (k : Nat) (first full : List MShare) : Option VerInfo 
   | some _ => match readOnce dropSrv k first with
     | some v => some v
     | none => readOnce dropSrv k full
+
+/-! ### the offsets tuple inside the version identity
+
+`SDMFSlotWriteProxy._get_offsets_tuple`, `MDMFSlotWriteProxy._get_offsets_tuple` (layout.py) and
+`ServermapUpdater._got_signature_one_share` (servermap.py) turn the offsets dict of a share into the
+tuple that is the last component of verinfo (`MShare.offs` above stands for its rank).  The dicts of
+the write proxies and of the read proxy hold the same entries in different insertion orders.  As
+repaired (canonical = true) the tuple is `tuple(sorted(offsets.items()))`; before, it was the
+insertion order.  Fields are numbered by the alphabetical rank of their names, so `pairLe` is
+Python's order on `(name, value)` pairs. -/
+
+abbrev Offsets := List (Nat × Nat)
+
+def pairLe (a b : Nat × Nat) : Bool := a.1 < b.1 || (a.1 == b.1 && a.2 ≤ b.2)
+
+def offsetsTuple (canonical : Bool) (d : Offsets) : Offsets :=
+  if canonical then d.mergeSort pairLe else d
 
 end Tahoe.RetrSel
